@@ -125,6 +125,7 @@ type Hist struct {
 	needRestart         bool
 	builds              int
 	scanActive          bool
+	inBuild             bool
 	lastLifetimeScanned int
 	journalMark         int
 	Scans               int64
@@ -150,6 +151,12 @@ func (h *Hist) Decide(op, target string) sim.Verdict {
 	}
 	// "refresh-fail": the first DescribeAutoScalingGroups of this slot's scan fails (Refresh fails once:
 	// RunOnce sleeps 5 s, rebuilds the provider and carries on)
+	// "refresh-down": every Refresh of this slot's scan fails (the first one and the one after each of
+	// the two provider rebuilds) while the rebuilds themselves succeed
+	if op == sim.OpDescribeASG && h.SlotFlags["refresh-down"] && h.scanActive && !h.inBuild {
+		h.Trace = append(h.Trace, "  fail asg.describe [every refresh of this scan fails]")
+		return sim.Fail
+	}
 	if op == sim.OpDescribeASG && h.SlotFlags["refresh-fail"] && h.scanActive {
 		h.SlotFlags["refresh-fail"] = false
 		h.Trace = append(h.Trace, "  fail asg.describe [refresh fails once]")
@@ -191,7 +198,9 @@ func (b builder) Build() (cloudprovider.CloudProvider, error) {
 	if !h.scanActive {
 		h.W.Phase = "build"
 	}
+	h.inBuild = true
 	defer func() {
+		h.inBuild = false
 		if !h.scanActive {
 			h.W.Phase = prev
 		}
